@@ -54,7 +54,8 @@ type timer struct {
 	at   int64
 	seq  uint64
 	task *Task  // wake this task, or
-	fn   func() // run this function as a new task (AfterFunc)
+	fn   func() // run this function as a new task (AfterFunc), or
+	cb   func() // run this function inline in the scheduler (must not block; timer channels)
 	dead bool
 }
 
@@ -108,7 +109,9 @@ type Sim struct {
 	lockedYld  int64
 	SiteName   func(int32) string
 	userReset  []func()
-	opSwitches int64 // context switches while cur task was inside a recorded op
+	pollers    []*Task // tasks parked because a channel operation could not proceed
+	idlePolled bool    // pollers were given a retry since the last progress
+	opSwitches int64   // context switches while cur task was inside a recorded op
 }
 
 type resetter interface{ simReset() }
@@ -517,6 +520,9 @@ func (s *Sim) fireTimers() {
 			}
 		} else if tm.fn != nil {
 			s.newTask("afterfunc", tm.fn)
+		} else if tm.cb != nil {
+			tm.cb()
+			s.wakePollers()
 		}
 	}
 }
@@ -655,6 +661,13 @@ func (s *Sim) pickAfterBlock() *Task {
 			return next
 		}
 		// nobody runnable (except possibly a quiescence waiter)
+		if len(s.pollers) > 0 && !s.idlePolled {
+			// channels may have changed through uninstrumented code (context cancellation, a
+			// closed channel): give every parked channel operation one retry
+			s.idlePolled = true
+			s.wakePollers()
+			continue
+		}
 		if s.quiesceW != nil && s.quiesceW.state == tsBlocked && s.quiesceW.quiesce {
 			q := s.quiesceW
 			q.state = tsRunnable
@@ -668,6 +681,7 @@ func (s *Sim) pickAfterBlock() *Task {
 				s.now = tm.at
 			}
 			s.fireTimers()
+			s.idlePolled = false
 			continue
 		}
 		// deadlock: blocked tasks, nothing runnable, no timers
@@ -985,6 +999,46 @@ func Stamp() int64 {
 	}
 	s.steps++
 	return s.steps
+}
+
+//go:norace
+func (s *Sim) wakePollers() {
+	for _, t := range s.pollers {
+		if t.state == tsBlocked && t.waitStr == "channel" {
+			t.state = tsRunnable
+		}
+	}
+	s.pollers = s.pollers[:0]
+}
+
+// ChanWait parks the calling task because a (rewritten) channel operation could not
+// proceed; it is retried when any channel operation completes, a timer channel fires, or
+// the simulation would otherwise go idle.
+//
+//go:norace
+func ChanWait(site int32) {
+	s := S
+	if s == nil || s.over {
+		runtime.Gosched()
+		return
+	}
+	s.Probes["channel_op_parked"]++
+	s.pollers = append(s.pollers, s.cur)
+	s.block("channel", nil)
+}
+
+// ChanDone records that a channel operation completed (send, receive, close): parked
+// channel operations are retried. Also a preemption point.
+//
+//go:norace
+func ChanDone() {
+	s := S
+	if s == nil || s.over {
+		return
+	}
+	s.idlePolled = false
+	s.wakePollers()
+	s.yield(-1, true)
 }
 
 // Fault counts an injected fault that actually fired and folds it into the fingerprint.
